@@ -172,6 +172,13 @@ def gen_cases(chk):
                 cfg = rng.choice(("-", "szMode=SZ_DEFAULT_COMPRESSION", "losslessCompressor=GZIP_COMPRESSOR"))
                 data = "g:%d:%x:%x:%s:%s" % (rng.choice((0, 1, 2, 3)), rng.getrandbits(20), n, dbits(a_), dbits(off))
                 cases.append("rt %x %s %s %x %s %s 0 %s %s" % (ty, tup5(t), tup5(t), mode, dbits(absb), dbits(rel), cfg, data))
+            if ty in (2, 4):
+                # the same around the middle of an unsigned type's range (128, 32768), where a signed reading of the values would wrap:
+                # the value range, hence the range-relative bound, must be the unsigned one
+                mid = 128.0 if ty == 2 else 32768.0
+                for mode, absb, rel in ((1, 1.0, 0.05), (2, 50.0, 0.05), (3, 1.0, 0.02)):
+                    data = "g:%d:%x:%x:%s:%s" % (rng.choice((0, 1, 3)), rng.getrandbits(20), n, dbits(a_), dbits(mid))
+                    cases.append("rt %x %s %s %x %s %s 0 %s %s" % (ty, tup5(t), tup5(t), mode, dbits(absb), dbits(rel), rng.choice(("-", "szMode=SZ_BEST_SPEED")), data))
     return cases
 
 
